@@ -199,13 +199,7 @@ def gen_images(ctx):
     im = Images()
     U = UNIT
     # --- probes: the three known shapes (also tell which repairs the tree has) -----------------------------------------
-    probes = {
-        'orphan-tail': (8, [0, 1], [E, E, E, H(1, 7, -1, 100, 0, mok=False), E, E, E, E]),      # DESIGN section 9, F6 witness
-        'size-short': (3, [0, 1], [E, E, H(1, 2, -1, U, 2 * U)]),
-        'foreign-slot': (3, [0, 1], [H(1, 0, 1, U, 2 * U), H(2, 2, -1, U, 0, mok=False), H(1, 0, -1, U, 0, mok=False)]),
-        # a failed walk (key 2, anchor 0) leaves its mark on slot 1 of key 1; key 1's chain then runs through slot 4 of key 3
-        'foreign-mark': (5, [1, 0, 2], [H(1, 0, 4, U, 0), H(1, 0, -1, U, 0), H(2, 2, 1, U, 0), H(2, 2, -1, U, 0), H(3, 0, -1, U, 0)]),
-    }
+    probes = PROBES
     for tag, (n, kf, img) in probes.items():
         im.add(n, kf, img, 'probe:' + tag)
     # --- exhaustive 2-slot space ---------------------------------------------------------------------------------------
@@ -303,6 +297,131 @@ def gen_images(ctx):
     return im.items
 
 
+
+# ---------------------------------------------------------------------------------------------
+# workloads through the real Rock::SwapDir (harness/u_rock_wl.cc): shared by C57 (T3 iii), C16u, C17u
+# ---------------------------------------------------------------------------------------------
+WL_SLOT = 16384      # slot size of workload dbs: (1 MiB - 16 KiB) / 16 KiB = 63 slots
+
+
+def _driver_env():
+    env = dict(os.environ)
+    env['ASAN_OPTIONS'] = 'detect_leaks=0:abort_on_error=0:exitcode=66'
+    env['UBSAN_OPTIONS'] = 'halt_on_error=0:print_stacktrace=0'
+    return env
+
+
+def run_workload(ctx, exe, name, ops, slot_size=WL_SLOT):
+    """Runs 'W' in its own process.  Returns (record, workdir); the binary write log stays in workdir/db.writes."""
+    wd = ctx.fresh_dir('wl-' + name)
+    with open(os.path.join(wd, 'stderr.txt'), 'w') as ef:
+        r = subprocess.run([exe, os.path.join(wd, 'db')], input='W %s %d %s\n' % (name, slot_size, ' '.join(ops)), stdout=subprocess.PIPE,
+                           stderr=ef, text=True, timeout=600, env=_driver_env(), cwd=wd)
+    recs = [json.loads(l) for l in r.stdout.splitlines() if l.startswith('{')]
+    if len(recs) != 1 or recs[0].get('crash') or 'writes' not in recs[0]:
+        raise MachineryError('workload %s failed rc=%s: %s | %s' % (name, r.returncode, r.stdout[-400:],
+                                                                     open(os.path.join(wd, 'stderr.txt'), errors='replace').read()[-600:]))
+    return recs[0], wd
+
+
+def run_restarts(ctx, exe, wl_dir, name, specs, nobj, slot_size=WL_SLOT, procs=None):
+    """specs: list of (k, cut, [mutations]).  One driver process per restart ('P').  Returns list of records; a driver that
+    dies yields out.done = False with the reason."""
+    procs = procs or max(2, min(8, vlib.NCPU // 2))
+    root = ctx.fresh_dir('rs-' + name)
+    res = [None] * len(specs)
+
+    def one(i):
+        k, cut, muts = specs[i]
+        wd = os.path.join(root, 'p%d' % i)
+        os.makedirs(wd)
+        os.symlink(os.path.join(wl_dir, 'db.writes'), os.path.join(wd, 'db.writes'))
+        line = 'P %d %d %d %d %d %s\n' % (i, slot_size, k, cut, nobj, ' '.join(muts))
+        with open(os.path.join(wd, 'stderr.txt'), 'w') as ef:
+            try:
+                r = subprocess.run([exe, os.path.join(wd, 'db')], input=line, stdout=subprocess.PIPE, stderr=ef, text=True,
+                                   timeout=600, env=_driver_env(), cwd=wd)
+                rc, out = r.returncode, r.stdout
+            except subprocess.TimeoutExpired:
+                rc, out = 'timeout', ''
+        recs = []
+        for l in out.splitlines():
+            if l.startswith('{'):
+                try:
+                    recs.append(json.loads(l))
+                except ValueError:
+                    pass
+        if recs and 'out' in recs[-1]:
+            rec = recs[-1]
+        else:
+            tail = open(os.path.join(wd, 'stderr.txt'), errors='replace').read()[-500:]
+            rec = {'id': str(i), 'k': k, 'cut': cut, 'out': {'done': False, 'crash': 'driver died rc=%s' % rc, 'ent': [], 'free': []},
+                   'served': [], 'slots': [None], 'stderr': tail}
+        rec['line'] = line.strip()
+        res[i] = rec
+        shutil.rmtree(wd, ignore_errors=True)
+
+    with concurrent.futures.ThreadPoolExecutor(max_workers=procs) as ex:
+        list(ex.map(one, range(len(specs))))
+    shutil.rmtree(root, ignore_errors=True)
+    return res
+
+
+def img_from_slots(n, slots):
+    """the driver's dump of the non-empty slot headers of a materialised image -> the TLA+ image"""
+    img = [{'t': 'E'} for _ in range(n)]
+    for d in slots:
+        if not d:
+            continue
+        if not d['sane'] or d['key'] == 0:
+            img[d['s']] = {'t': 'G'}
+        else:
+            img[d['s']] = {'t': 'H', 'key': d['key'], 'first': d['first'], 'next': d['next'], 'pay': d['pay'], 'esz': d['esz'],
+                           'mok': bool(d['mok']) and d['mkey'] != 0, 'mkey': d['mkey'] if d['mkey'] != 99 else 0, 'msz': d['msz'], 'mhl': d['mhl'],
+                           'mpriv': d['mpriv']}
+    return img
+
+
+def tla_out(out):
+    return {'done': bool(out.get('done')), 'crash': out.get('crash', ''), 'ent': out.get('ent', []), 'free': out.get('free', [])}
+
+
+def stored_image_cases(ctx, exe, fix):
+    """T3 (iii): a db really written by Rock::SwapDir / Rock::IoState, then slot headers mutated (chain links, sizes, first
+    slots, versions, zeroing, duplication).  Returns (cases for Conf_RockRebuild, descriptions)."""
+    rnd = random.Random(ctx.seed + 57)
+    ops = ['put:1:1:40000', 'put:2:1:5000', 'put:3:1:20000', 'put:4:1:33000', 'put:5:1:100']
+    wl, wd = run_workload(ctx, exe, 'c57', ops)
+    n, nw = wl['n'], len(wl['writes'])
+    used = sorted({w['slot'] for w in wl['writes']})
+    by_slot = {w['slot']: w for w in wl['writes']}
+    free = [s for s in range(n) if s not in used][:2]
+    specs = [(nw, 0, [])]
+    fields = []
+    for s in used:
+        w = by_slot[s]
+        others = [x for x in used if x != s]
+        cand = [('next', -1), ('next', s), ('next', free[0]), ('next', rnd.choice(others)), ('first', rnd.choice(others)), ('first', s),
+                ('pay', w['pay'] - 1), ('pay', w['pay'] + 1), ('esz', 0), ('esz', w['pay']), ('esz', max(1, w['esz'] - 1)), ('esz', w['esz'] + 1),
+                ('ver', 0), ('ver', w['ver'] + 1), ('zero', 0), ('copy', rnd.choice(others))]
+        for f, v in cand:
+            fields.append('set:%d:%s:%d' % (s, f, v))
+    rnd.shuffle(fields)
+    single = fields if ctx.thorough else fields[:40]
+    for m in single:
+        specs.append((nw, 0, [m]))
+    for _ in range(200 if ctx.thorough else 25):                   # two or three simultaneous mutations
+        specs.append((nw, 0, rnd.sample(fields, rnd.choice([2, 2, 3]))))
+    recs = run_restarts(ctx, exe, wd, 'c57', specs, 5)
+    cases, descr = [], []
+    for rec, (k, cut, muts) in zip(recs, specs):
+        img = img_from_slots(n, rec.get('slots', []))
+        cases.append({'id': len(cases), 'n': n, 'kf': wl['kf'], 'fix': fix, 'img': img, 'out': tla_out(rec['out'])})
+        descr.append('stored db (%s) with %s' % (' '.join(ops), ' '.join(muts) or 'no mutation'))
+    shutil.rmtree(wd, ignore_errors=True)
+    return cases, descr, wl
+
+
 # ---------------------------------------------------------------------------------------------
 # witness analysis (naming the shape of a P-rejection; the verdict itself is TLC's)
 # ---------------------------------------------------------------------------------------------
@@ -371,22 +490,47 @@ def norm_crash(text):
     return '%s: %s' % (m.group(1), m.group(2)) if m else t[:120]
 
 
-def local_known():
-    if not os.path.exists(KNOWN_LOCAL):
-        return []
-    return json.load(open(KNOWN_LOCAL)).get('open', [])
-
-
-def report(ctx, what, witness):
-    """P-rejection -> KNOWN-FINDING (checks/C57.known.json, until the coordinator moves it to known_findings.json) or VIOLATION"""
+def report_known(ctx, known_path, props, what, witness):
+    """P-rejection -> KNOWN-FINDING when the witness class matches an 'open' entry of known_path (a per-check list kept until the
+    coordinator moves the entry to /verif/known_findings.json, which ctx.violation consults itself), else VIOLATION."""
     cls = witness.get('class', {})
-    for k in local_known():
+    entries = json.load(open(known_path)).get('open', []) if os.path.exists(known_path) else []
+    for k in entries:
         m = k.get('match', {})
-        if k.get('property') == ctx.prop and m and all(cls.get(a) == b for a, b in m.items()):
+        if k.get('property') in props and m and all(cls.get(a) == b for a, b in m.items()):
             if k['id'] not in [x['id'] for x in ctx.known]:
                 ctx.known.append(k)
             return False
     return ctx.violation(what, witness)
+
+
+def report(ctx, what, witness):
+    return report_known(ctx, KNOWN_LOCAL, (ctx.prop, 'C57'), what, witness)
+
+
+PROBES = {
+    'orphan-tail': (8, [0, 1], [E, E, E, H(1, 7, -1, 100, 0, mok=False), E, E, E, E]),      # DESIGN section 9, F6 witness
+    'size-short': (3, [0, 1], [E, E, H(1, 2, -1, UNIT, 2 * UNIT)]),
+    'foreign-slot': (3, [0, 1], [H(1, 0, 1, UNIT, 2 * UNIT), H(2, 2, -1, UNIT, 0, mok=False), H(1, 0, -1, UNIT, 0, mok=False)]),
+    # a failed walk (key 2, anchor 0) leaves its mark on slot 1 of key 1; key 1's chain then runs through slot 4 of key 3
+    'foreign-mark': (5, [1, 0, 2], [H(1, 0, 4, UNIT, 0), H(1, 0, -1, UNIT, 0), H(2, 2, 1, UNIT, 0), H(2, 2, -1, UNIT, 0), H(3, 0, -1, UNIT, 0)]),
+}
+REPAIR_OF = {'orphan-tail': 'anchored', 'size-short': 'size', 'foreign-slot': 'own', 'foreign-mark': 'undo'}
+
+
+def repairs_from(tagged_outs):
+    """which of the proposed repairs of Rock::Rebuild::finalizeOrThrow the probed tree has (selects the I-layer variant)"""
+    fix = [REPAIR_OF[tag] for tag, out in tagged_outs if out.get('done') and not out['ent']]
+    if 'undo' in fix and 'own' not in fix:
+        fix.remove('undo')
+    return fix
+
+
+def detect_repairs(ctx, exe):
+    tags = list(PROBES)
+    lines = [case_line(i, *PROBES[t]) for i, t in enumerate(tags)]
+    outs = run_driver_cases(ctx, exe, lines, 'probe', procs=1)
+    return repairs_from([(t, o['out']) for t, o in zip(tags, outs)])
 
 
 def describe(n, kf, img, out):
@@ -402,6 +546,23 @@ def describe(n, kf, img, out):
 
 
 # ---------------------------------------------------------------------------------------------
+def judge(ctx, cases, metas, prej, irej, shapes):
+    """P-rejections -> classified witnesses (known finding or VIOLATION); I-rejections -> drift"""
+    for i in prej:
+        n, kf, img, line, tag = metas[i]
+        out = cases[i]['out']
+        cls = analyse(n, kf, img, out)
+        key = cls['shape'] + ('/' + cls['other'] if cls['other'] else '')
+        shapes[key] = shapes.get(key, 0) + 1
+        if len(ctx.violations) < 5:
+            report(ctx, 'rock rebuild made an entry readable that C57 forbids (or lost/duplicated slots, or crashed): ' + describe(n, kf, img, out),
+                   {'class': cls, 'line': line, 'n': n, 'kf': kf, 'img': cases[i]['img'], 'out': out, 'tag': tag})
+    for i in irej:
+        if i not in prej and len(ctx.drift) < 5:
+            n, kf, img, line, tag = metas[i]
+            ctx.drift.append('index differs from RockRebuild.tla for %s: %s' % (line, describe(n, kf, img, cases[i]['out'])))
+
+
 def model_check(ctx):
     """Design step: the machine over ALL images of the bounded domain (BFS over image prefixes)."""
     mod = os.path.join(SPEC, 'MC_RockRebuild.tla')
@@ -425,36 +586,32 @@ def run(ctx):
     ctx.log('%d images' % len(items))
     outs = run_driver_cases(ctx, exe, lines, 'img')
     # which repairs does this tree have? (selects the I-layer variant; the P-layer does not depend on it)
-    fix = []
-    for (n, kf, img, tag), o in zip(items, outs):
-        if tag.startswith('probe:') and o['out'].get('done') and not o['out']['ent']:
-            fix.append({'orphan-tail': 'anchored', 'size-short': 'size', 'foreign-slot': 'own', 'foreign-mark': 'undo'}[tag[6:]])
-    if 'undo' in fix and 'own' not in fix:
-        fix.remove('undo')
+    fix = repairs_from([(tag[6:], o['out']) for (n, kf, img, tag), o in zip(items, outs) if tag.startswith('probe:')])
     ctx.cov['repairs_detected'] = fix
     cases = []
     for i, ((n, kf, img, tag), o) in enumerate(zip(items, outs)):
-        out = o['out']
-        cases.append({'id': i, 'n': n, 'kf': [k % n for k in kf], 'fix': fix, 'img': [slot_tla(v) for v in img],
-                      'out': {'done': bool(out.get('done')), 'crash': out.get('crash', ''), 'ent': out.get('ent', []), 'free': out.get('free', [])}})
+        cases.append({'id': i, 'n': n, 'kf': [k % n for k in kf], 'fix': fix, 'img': [slot_tla(v) for v in img], 'out': tla_out(o['out'])})
     prej, irej = ucheck.conformance(ctx, os.path.join(SPEC, 'Conf_RockRebuild.tla'), os.path.join(SPEC, 'Conf_RockRebuild.cfg'),
                                     cases, 'rock', chunk=8000)
-    ctx.log('TLC evaluated %d indexes: P-rejected %d, I-rejected %d' % (len(cases), len(prej), len(irej)))
+    ctx.log('TLC evaluated %d indexes of crafted images: P-rejected %d, I-rejected %d' % (len(cases), len(prej), len(irej)))
     shapes = {}
-    for i in prej:
-        n, kf, img, tag = items[i]
-        out = cases[i]['out']
-        cls = analyse(n, [k % n for k in kf], img, out)
-        key = cls['shape'] + ('/' + cls['other'] if cls['other'] else '')
-        shapes[key] = shapes.get(key, 0) + 1
-        if len(ctx.violations) < 5:
-            report(ctx, 'rock rebuild made an entry readable that C57 forbids (or lost/duplicated slots): ' + describe(n, kf, img, out),
-                   {'class': cls, 'line': lines[i], 'n': n, 'kf': kf, 'img': cases[i]['img'], 'out': out, 'tag': tag})
-    for i in irej:
-        if i not in prej and len(ctx.drift) < 5:
-            ctx.drift.append('index differs from RockRebuild.tla for ' + describe(*items[i][:3], cases[i]['out']))
+    judge(ctx, cases, [(n, [k % n for k in kf], img, lines[i], tag) for i, (n, kf, img, tag) in enumerate(items)], prej, irej, shapes)
+    # T3 (iii): images written by the real store, then mutated
+    scases, sdescr, wl = stored_image_cases(ctx, exe, fix)
+    sprej, sirej = ucheck.conformance(ctx, os.path.join(SPEC, 'Conf_RockRebuild.tla'), os.path.join(SPEC, 'Conf_RockRebuild.cfg'),
+                                      scases, 'rockstored', chunk=8000)
+    ctx.log('TLC evaluated %d indexes of stored+mutated images: P-rejected %d, I-rejected %d' % (len(scases), len(sprej), len(sirej)))
+    judge(ctx, scases, [(c['n'], c['kf'], c['img'], d, 'stored') for c, d in zip(scases, sdescr)], sprej, sirej, shapes)
+    ctx.cov['stored_images'] = len(scases)
+    ctx.cov['stored_images_with_readable_entries'] = sum(1 for c in scases if c['out']['ent'])
+    ctx.cov['stored_workload_writes'] = len(wl['writes'])
+    if scases and len(scases[0]['out']['ent']) != 5:
+        raise MachineryError('the unmutated stored image should index its 5 entries, got %r' % (scases[0]['out'],))
+    prej = list(prej) + list(sprej)
+    irej = list(irej) + list(sirej)
+    cases_all = cases + scases
     # evidence
-    ctx.cov['impl_distinct'] = len(cases)
+    ctx.cov['impl_distinct'] = len(cases_all)
     ctx.cov['images_by_family'] = {}
     for (_, _, _, tag) in items:
         t = tag.split(':')[0]
